@@ -160,6 +160,11 @@ class Arena:
             target = os.path.join(self.out, "a", "b", stem + "." + ext)
         else:
             target = os.path.join(self.out, stem + "." + ext)
+        if target_state == "is_directory":
+            # the requested path is an existing directory: the export has to fail and leave nothing behind
+            os.makedirs(target)
+            with open(os.path.join(target, "keep.txt"), "wb") as f:
+                f.write(b"KEEP")
         if target_state in ("present", "present_resources"):
             with open(target, "wb") as f:
                 f.write(b"OLD CONTENT")
@@ -270,6 +275,9 @@ def judge(ctx, case, arena, target, before, raised, tap, stub, exporter, events,
             bad(f"export raised and changed other files: {sorted(extra)[:4]}")
         return
     # returned normally
+    if case.get("target") == "is_directory":
+        bad("export to a path that is an existing directory returned normally")
+        return
     if rel not in after:
         bad("export returned but no file exists at the target path")
         return
@@ -456,6 +464,11 @@ def run_shard(desc, ctx):
                         ctx.count("stub_runs")
                         run_one(ctx, env, e, d, "reexport", stub_mode="html_resources" if e == "html" else "ok",
                                 stem=rng.choice(STEMS))
+                # (write_rtf only: the converter-based exporters move their result INTO an existing directory,
+                # which the property neither demands nor forbids)
+                for d in ("col_a", "paged", "hardtext"):
+                    ctx.count("stub_runs")
+                    run_one(ctx, env, "rtf", d, "is_directory", stem=rng.choice(STEMS))
                 for e in ("rtf", "docx", "pdf", "html"):
                     for d in ("col_a", "paged", "plain3"):
                         ctx.count("stub_runs")
